@@ -1,6 +1,482 @@
 package main
 
-// tryReplay runs the real function on the inputs of a solver model where a driver exists.
+import (
+	"context"
+	"encoding/hex"
+	"encoding/json"
+	"fmt"
+	"go/types"
+	"os"
+	"os/exec"
+	"path/filepath"
+	"strings"
+	"time"
+
+	"golang.org/x/tools/go/ssa"
+)
+
+// Counterexample replay: when a solver returns a model for a failed obligation of a function whose
+// parameters can be built from plain data (strings, bytes, scalars, structs of those, byte-stream readers
+// and writers), the real function is run on the model's inputs through an in-package test injected with
+// `go test -overlay` (nothing is written to /repo). The observed outputs are then pinned in the failed query:
+// if path condition + observed behaviour + negated clause is still satisfiable, the counterexample is
+// CONFIRMED on the real code; for panic-freedom obligations it is confirmed when the real call panics.
+
+type rArg struct {
+	name   string
+	kind   string // string bool int bytes reader writer struct
+	ty     types.Type
+	term   string            // scalar / content term
+	nilT   string            // bytes: reference term (0 = nil slice)
+	ident  string            // reader/writer/struct: identity term
+	fields []rField          // struct
+	val    string            // concrete Go literal built from the model
+	raw    map[string]string // model values by term
+}
+
+type rField struct {
+	lf   leaf
+	term string
+}
+
+func replayKind(t types.Type) string {
+	tn := typeName(t)
+	switch tn {
+	case "io.Reader":
+		return "reader"
+	case "io.Writer":
+		return "writer"
+	}
+	switch kindOf(t) {
+	case KStr:
+		return "string"
+	case KBool:
+		return "bool"
+	case KInt:
+		if isOpaqueNamed(t) {
+			return ""
+		}
+		return "int"
+	case KSlice:
+		if isByteSlice(t) {
+			return "bytes"
+		}
+	case KPtr:
+		et := t.Underlying().(*types.Pointer).Elem()
+		if _, ok := et.Underlying().(*types.Struct); ok && !isOpaqueNamed(et) {
+			for _, lf := range structLeaves(et) {
+				switch kindOf(lf.ty) {
+				case KStr, KBool:
+				case KInt:
+					if isOpaqueNamed(lf.ty) {
+						return ""
+					}
+				default:
+					return ""
+				}
+			}
+			return "struct"
+		}
+	}
+	return ""
+}
+
 func tryReplay(eng *Engine, q *Query, model map[string]string) *replayOutcome {
-	return nil
+	if q.Run == nil || q.Result == nil || q.Result.Status != "sat" {
+		return nil
+	}
+	r := q.Run
+	fn := r.fn
+	if fn.Pkg == nil || len(fn.FreeVars) > 0 {
+		return nil
+	}
+	if q.Kind != "ensures" && q.Kind != "safety" {
+		return &replayOutcome{Note: "no replay driver for obligations of kind " + q.Kind}
+	}
+	var args []*rArg
+	for _, p := range fn.Params {
+		k := replayKind(p.Type())
+		if k == "" {
+			return &replayOutcome{Note: fmt.Sprintf("no replay driver: parameter %s has type %s", p.Name(), p.Type())}
+		}
+		v := r.vars[p.Name()]
+		a := &rArg{name: p.Name(), kind: k, ty: p.Type()}
+		switch k {
+		case "string", "bool", "int":
+			a.term = v.T
+		case "bytes":
+			a.term, a.nilT = v.Content, v.Ref
+		case "reader", "writer":
+			a.ident = v.T
+			if k == "reader" {
+				a.term = app("select", r.ghost0["rin"], v.T)
+			}
+		case "struct":
+			a.ident = v.P.T
+			et := p.Type().Underlying().(*types.Pointer).Elem()
+			for _, lf := range structLeaves(et) {
+				h0, ok := r.heap0[heapArrayName(et, lf.name)]
+				t := ""
+				if ok {
+					t = app("select", h0, v.P.T)
+				}
+				a.fields = append(a.fields, rField{lf, t})
+			}
+		}
+		args = append(args, a)
+	}
+	// concrete values of all input terms
+	var terms []string
+	for _, a := range args {
+		for _, t := range []string{a.term, a.nilT} {
+			if t != "" {
+				terms = append(terms, t)
+			}
+		}
+		for _, f := range a.fields {
+			if f.term != "" {
+				terms = append(terms, f.term)
+			}
+		}
+	}
+	vals, err := getValues(eng, q, terms)
+	if err != nil {
+		return &replayOutcome{Note: "could not extract input values from the solver: " + err.Error()}
+	}
+	// Go literals
+	var decl, call []string
+	pin := []string{}
+	for _, a := range args {
+		switch a.kind {
+		case "string":
+			s, ok := vals[a.term].(string)
+			if !ok {
+				return &replayOutcome{Note: "model value of " + a.name + " is not a string literal"}
+			}
+			decl = append(decl, fmt.Sprintf("\t%s := unhex(%q)", a.name, hex.EncodeToString([]byte(s))))
+			pin = append(pin, app("=", a.term, smtStr(s)))
+			call = append(call, a.name)
+		case "bool", "int":
+			lit := fmt.Sprint(vals[a.term])
+			decl = append(decl, fmt.Sprintf("\tvar %s %s = %s", a.name, types.TypeString(a.ty, func(p *types.Package) string { return "" }), lit))
+			pin = append(pin, app("=", a.term, smtInt(lit)))
+			call = append(call, a.name)
+		case "bytes":
+			s, _ := vals[a.term].(string)
+			if len(s) > 1<<20 {
+				return &replayOutcome{Note: "model input too large to replay"}
+			}
+			if fmt.Sprint(vals[a.nilT]) == "0" {
+				decl = append(decl, fmt.Sprintf("\tvar %s []byte", a.name))
+			} else {
+				decl = append(decl, fmt.Sprintf("\t%s := []byte(unhex(%q))", a.name, hex.EncodeToString([]byte(s))))
+			}
+			pin = append(pin, app("=", a.term, smtStr(s)))
+			call = append(call, a.name)
+		case "reader":
+			s, _ := vals[a.term].(string)
+			decl = append(decl, fmt.Sprintf("\t%s := strings.NewReader(unhex(%q))", a.name, hex.EncodeToString([]byte(s))))
+			pin = append(pin, app("=", a.term, smtStr(s)), app("=", app("rterm", a.ident), "0"))
+			call = append(call, a.name)
+		case "writer":
+			decl = append(decl, fmt.Sprintf("\t%s := &bytes.Buffer{}", a.name))
+			call = append(call, a.name)
+		case "struct":
+			et := a.ty.Underlying().(*types.Pointer).Elem()
+			var fs []string
+			for _, f := range a.fields {
+				if f.term == "" || strings.Contains(f.lf.name, ".") {
+					continue
+				}
+				switch v := vals[f.term].(type) {
+				case string:
+					fs = append(fs, fmt.Sprintf("%s: unhex(%q)", f.lf.name, hex.EncodeToString([]byte(v))))
+					pin = append(pin, app("=", f.term, smtStr(v)))
+				default:
+					fs = append(fs, fmt.Sprintf("%s: %v", f.lf.name, v))
+					pin = append(pin, app("=", f.term, smtInt(fmt.Sprint(v))))
+				}
+			}
+			decl = append(decl, fmt.Sprintf("\t%s := &%s{%s}", a.name, et.(*types.Named).Obj().Name(), strings.Join(fs, ", ")))
+			call = append(call, a.name)
+		}
+	}
+	// the call expression
+	sig := fn.Signature
+	var callee string
+	callArgs := call
+	if sig.Recv() != nil {
+		callee = call[0] + "." + fn.Name()
+		callArgs = call[1:]
+	} else {
+		callee = fn.Name()
+	}
+	nres := sig.Results().Len()
+	var lhs []string
+	for i := 0; i < nres; i++ {
+		lhs = append(lhs, fmt.Sprintf("r%d", i))
+	}
+	var sb strings.Builder
+	pkgName := fn.Pkg.Pkg.Name()
+	fmt.Fprintf(&sb, "package %s\n\nimport (\n\t\"bytes\"\n\t\"encoding/hex\"\n\t\"encoding/json\"\n\t\"fmt\"\n\t\"strings\"\n\t\"testing\"\n)\n\n", pkgName)
+	sb.WriteString("var _ = bytes.NewBuffer\nvar _ = strings.NewReader\n\nfunc unhex(s string) string { b, _ := hex.DecodeString(s); return string(b) }\n\n")
+	sb.WriteString("func TestGovcReplay(t *testing.T) {\n\tout := map[string]interface{}{}\n")
+	sb.WriteString("\tdefer func() {\n\t\tif r := recover(); r != nil {\n\t\t\tout[\"panic\"] = fmt.Sprint(r)\n\t\t}\n\t\tb, _ := json.Marshal(out)\n\t\tfmt.Printf(\"\\nGOVC-REPLAY %s\\n\", b)\n\t}()\n")
+	sb.WriteString(strings.Join(decl, "\n") + "\n")
+	if nres > 0 {
+		fmt.Fprintf(&sb, "\t%s := %s(%s)\n", strings.Join(lhs, ", "), callee, strings.Join(callArgs, ", "))
+	} else {
+		fmt.Fprintf(&sb, "\t%s(%s)\n", callee, strings.Join(callArgs, ", "))
+	}
+	for i := 0; i < nres; i++ {
+		t := sig.Results().At(i).Type()
+		switch {
+		case isErrorType(t):
+			fmt.Fprintf(&sb, "\tif r%d != nil {\n\t\tout[\"r%d\"] = \"err:\" + r%d.Error()\n\t} else {\n\t\tout[\"r%d\"] = \"nil\"\n\t}\n", i, i, i, i)
+		case kindOf(t) == KStr:
+			fmt.Fprintf(&sb, "\tout[\"r%d\"] = hex.EncodeToString([]byte(r%d))\n", i, i)
+		case isByteSlice(t):
+			fmt.Fprintf(&sb, "\tout[\"r%d\"] = hex.EncodeToString(r%d)\n\tout[\"r%dnil\"] = r%d == nil\n", i, i, i, i)
+		case kindOf(t) == KBool || (kindOf(t) == KInt && !isOpaqueNamed(t)):
+			fmt.Fprintf(&sb, "\tout[\"r%d\"] = r%d\n", i, i)
+		default:
+			fmt.Fprintf(&sb, "\t_ = r%d\n", i)
+		}
+	}
+	for _, a := range args {
+		switch a.kind {
+		case "writer":
+			fmt.Fprintf(&sb, "\tout[\"w:%s\"] = hex.EncodeToString(%s.Bytes())\n", a.name, a.name)
+		case "struct":
+			for _, f := range a.fields {
+				if strings.Contains(f.lf.name, ".") {
+					continue
+				}
+				if kindOf(f.lf.ty) == KStr {
+					fmt.Fprintf(&sb, "\tout[\"f:%s.%s\"] = hex.EncodeToString([]byte(%s.%s))\n", a.name, f.lf.name, a.name, f.lf.name)
+				} else {
+					fmt.Fprintf(&sb, "\tout[\"f:%s.%s\"] = %s.%s\n", a.name, f.lf.name, a.name, f.lf.name)
+				}
+			}
+		}
+	}
+	sb.WriteString("}\n")
+
+	// run it
+	tmp, err := os.MkdirTemp("", "govc-replay-")
+	if err != nil {
+		return &replayOutcome{Note: err.Error()}
+	}
+	defer os.RemoveAll(tmp)
+	pkgDir := filepath.Dir(eng.prog.Fset.Position(fn.Pos()).Filename)
+	testFile := filepath.Join(tmp, "replay_test.go")
+	os.WriteFile(testFile, []byte(sb.String()), 0o644) //nolint:errcheck
+	ov, _ := json.Marshal(map[string]interface{}{"Replace": map[string]string{filepath.Join(pkgDir, "zz_govc_replay_test.go"): testFile}})
+	ovFile := filepath.Join(tmp, "overlay.json")
+	os.WriteFile(ovFile, ov, 0o644) //nolint:errcheck
+	ctx, cancel := context.WithTimeout(context.Background(), 90*time.Second)
+	defer cancel()
+	cmd := exec.CommandContext(ctx, "go", "test", "-overlay", ovFile, "-vet=off", "-count=1", "-timeout", "60s", "-v", "-run", "^TestGovcReplay$", ".")
+	cmd.Dir = pkgDir
+	cmd.Env = append(os.Environ(), "GOFLAGS=-mod=mod", "GOPROXY=off", "GOSUMDB=off", "GOTOOLCHAIN=local")
+	outB, _ := cmd.CombinedOutput()
+	outS := string(outB)
+	res := &replayOutcome{Cmd: "cd " + pkgDir + " && go test -overlay <driver> -vet=off -run ^TestGovcReplay$ .   (driver: in-package test calling " + callee + " on the model's inputs)", Output: trunc(outS, 3000)}
+	res.Driver = sb.String()
+	idx := strings.Index(outS, "GOVC-REPLAY ")
+	if idx < 0 {
+		res.Note = "replay driver produced no result (build or run failure)"
+		return res
+	}
+	line := outS[idx+len("GOVC-REPLAY "):]
+	if nl := strings.IndexByte(line, '\n'); nl >= 0 {
+		line = line[:nl]
+	}
+	obs := map[string]interface{}{}
+	if err := json.Unmarshal([]byte(line), &obs); err != nil {
+		res.Note = "cannot parse replay output"
+		return res
+	}
+	res.Observed = obs
+	if q.Kind == "safety" {
+		if p, ok := obs["panic"]; ok {
+			res.Confirmed = true
+			res.Note = fmt.Sprintf("the real function panics on the model's input: %v", p)
+		} else {
+			res.Note = "the real function does not panic on the model's input"
+		}
+		return res
+	}
+	if _, ok := obs["panic"]; ok {
+		res.Note = "the real function panicked instead of returning"
+		return res
+	}
+	// pin observed outputs on this path and ask whether the clause is still violated
+	for i := 0; i < nres && i < len(q.Rets); i++ {
+		t := sig.Results().At(i).Type()
+		rv := q.Rets[i]
+		o, ok := obs[fmt.Sprintf("r%d", i)]
+		if !ok || rv == nil {
+			continue
+		}
+		switch {
+		case isErrorType(t):
+			if o == "nil" {
+				pin = append(pin, app("=", rv.T, "0"))
+			} else {
+				pin = append(pin, not(app("=", rv.T, "0")))
+			}
+		case kindOf(t) == KStr:
+			b, _ := hex.DecodeString(fmt.Sprint(o))
+			pin = append(pin, app("=", rv.T, smtStr(string(b))))
+		case isByteSlice(t):
+			b, _ := hex.DecodeString(fmt.Sprint(o))
+			pin = append(pin, app("=", r.content(q.Post, rv), smtStr(string(b))))
+			if isNil, _ := obs[fmt.Sprintf("r%dnil", i)].(bool); isNil {
+				pin = append(pin, app("=", rv.Ref, "0"))
+			} else {
+				pin = append(pin, not(app("=", rv.Ref, "0")))
+			}
+		case kindOf(t) == KBool:
+			pin = append(pin, app("=", rv.T, fmt.Sprint(o)))
+		case kindOf(t) == KInt:
+			pin = append(pin, app("=", rv.T, smtInt(fmt.Sprint(o))))
+		}
+	}
+	for _, a := range args {
+		switch a.kind {
+		case "writer":
+			b, _ := hex.DecodeString(fmt.Sprint(obs["w:"+a.name]))
+			w0 := r.ghost0["wout"]
+			if cur, ok := q.Post.ghost["wout"]; ok && w0 != "" {
+				pin = append(pin, app("=", app("select", w0, a.ident), `""`), app("=", app("select", cur, a.ident), smtStr(string(b))))
+			}
+		case "struct":
+			et := a.ty.Underlying().(*types.Pointer).Elem()
+			for _, f := range a.fields {
+				cur, ok := q.Post.heap[heapArrayName(et, f.lf.name)]
+				o, have := obs["f:"+a.name+"."+f.lf.name]
+				if !ok || cur == "" || !have {
+					continue
+				}
+				if kindOf(f.lf.ty) == KStr {
+					b, _ := hex.DecodeString(fmt.Sprint(o))
+					pin = append(pin, app("=", app("select", cur, a.ident), smtStr(string(b))))
+				} else {
+					pin = append(pin, app("=", app("select", cur, a.ident), smtInt(fmt.Sprint(o))))
+				}
+			}
+		}
+	}
+	st := confirm(eng, q, pin)
+	res.Pinned = pin
+	switch st {
+	case "sat":
+		res.Confirmed = true
+		res.Note = "with the inputs and the outputs observed on the real code pinned, the path condition and the negated clause are satisfiable: the clause is false on this real execution"
+	case "unsat":
+		res.Note = "the real execution on the model's inputs does not follow the model (solver model used uninterpreted-function values the real code does not have)"
+	default:
+		res.Note = "confirmation query undecided"
+	}
+	return res
+}
+
+func smtInt(s string) string {
+	s = strings.TrimSpace(s)
+	if s == "true" || s == "false" {
+		return s
+	}
+	if strings.HasPrefix(s, "-") {
+		return "(- " + s[1:] + ")"
+	}
+	return s
+}
+
+func solverByName(name string) *solverSpec {
+	for i := range solvers {
+		if strings.HasPrefix(name, solvers[i].name) {
+			return &solvers[i]
+		}
+	}
+	return &solvers[2]
+}
+
+// getValues re-runs the solver that produced the model and asks for the values of the given terms.
+func getValues(eng *Engine, q *Query, terms []string) (map[string]interface{}, error) {
+	out := map[string]interface{}{}
+	if len(terms) == 0 {
+		return out, nil
+	}
+	script, _ := q.scriptWith(eng.C, q.PC)
+	script = strings.Replace(script, "(check-sat)\n(get-model)\n", "(check-sat)\n(get-value ("+strings.Join(terms, " ")+"))\n", 1)
+	file := q.Result.File + ".values.smt2"
+	os.WriteFile(file, []byte(script), 0o644) //nolint:errcheck
+	st, o := runSolver(context.Background(), *solverByName(q.Result.Solver), file, 20)
+	if st != "sat" {
+		// any solver that can produce a model will do
+		for _, s := range solvers {
+			if st, o = runSolver(context.Background(), s, file, 20); st == "sat" {
+				break
+			}
+		}
+	}
+	if st != "sat" {
+		return nil, fmt.Errorf("no solver reproduced the model")
+	}
+	i := strings.Index(o, "\n")
+	forms, err := parseAll("values", o[i+1:], 1)
+	if err != nil || len(forms) == 0 {
+		return nil, fmt.Errorf("cannot parse get-value answer")
+	}
+	for k, pair := range forms[0].List {
+		if k >= len(terms) || len(pair.List) != 2 {
+			continue
+		}
+		v := pair.List[1]
+		switch {
+		case v.IsStr:
+			out[terms[k]] = v.Atom
+		case v.IsAtom():
+			out[terms[k]] = v.Atom
+		case v.Head() == "-" && len(v.List) == 2:
+			out[terms[k]] = "-" + v.List[1].Atom
+		default:
+			out[terms[k]] = v.String()
+		}
+	}
+	return out, nil
+}
+
+func confirm(eng *Engine, q *Query, pin []string) string {
+	pc := append(append([]string(nil), q.PC...), pin...)
+	script, _ := q.scriptWith(eng.C, pc)
+	file := q.Result.File + ".confirm.smt2"
+	os.WriteFile(file, []byte(script), 0o644) //nolint:errcheck
+	best := "unknown"
+	for _, s := range solvers {
+		st, _ := runSolver(context.Background(), s, file, 20)
+		if st == "sat" {
+			return "sat"
+		}
+		if st == "unsat" {
+			best = "unsat"
+		}
+	}
+	return best
+}
+
+var _ = ssa.NaiveForm
+
+// replayableFn: every parameter can be built from plain data by the generic driver.
+func replayableFn(fn *ssa.Function) bool {
+	if fn.Pkg == nil || len(fn.FreeVars) > 0 {
+		return false
+	}
+	for _, p := range fn.Params {
+		if replayKind(p.Type()) == "" {
+			return false
+		}
+	}
+	return true
 }
